@@ -475,6 +475,45 @@ def graph_case(draw, kinds=("conserved", "digraph", "perturbed"), nmax=9, with_s
     return case
 
 
+@st.composite
+def tied_bottleneck_case(draw):
+    """Constructed: the widest pathway s->a[->m]->t has ALL its edges equal (every one of them is 'the' bottleneck);
+    a second route enters a from elsewhere and leaves over the pathway's last edge, a third leaves a elsewhere after the
+    pathway's first edge, a fourth, narrower one avoids the pathway altogether. Whichever single tied edge is taken
+    out, one of the two medium routes survives and is the next widest."""
+    mid = draw(st.booleans())                       # pathway of 2 or 3 edges
+    U = draw(st.integers(1, 3)); V = U + draw(st.integers(1, 3)); W = V + draw(st.integers(1, 3))
+    names = ["s", "a", "t", "b", "d", "c"] + (["m"] if mid else [])
+    extra = draw(st.integers(0, 2))
+    n = len(names) + extra
+    perm = draw(st.permutations(list(range(n))))
+    ix = {nm: perm[i] for i, nm in enumerate(names)}
+    F = [[0] * n for _ in range(n)]
+
+    def edge(x, y, w):
+        F[ix[x]][ix[y]] = w
+    if mid:
+        edge("s", "a", W); edge("a", "m", W); edge("m", "t", W)
+        edge("s", "b", V); edge("b", "m", V)            # joins before the pathway's last edge
+    else:
+        edge("s", "a", W); edge("a", "t", W)
+        edge("s", "b", V); edge("b", "a", V)            # enters a, leaves over the pathway's last edge
+    edge("a", "d", V); edge("d", "t", V)                # uses the pathway's first edge, leaves elsewhere
+    edge("s", "c", U); edge("c", "t", U)                # independent, narrower
+    for _ in range(draw(st.integers(0, 3))):            # a little noise no wider than the narrow route
+        i = draw(st.integers(0, n - 1)); j = draw(st.integers(0, n - 1))
+        if i != j and F[i][j] == 0 and i != ix["t"] and j != ix["s"]:
+            F[i][j] = draw(st.integers(1, U))
+    dtype = draw(st.sampled_from(["float64", "float64", "float32", "int64", "int32"]))
+    return {"kind": "constructed_tied", "wkind": "int", "F": F, "sources": [ix["s"]], "sinks": [ix["t"]], "dtype": dtype,
+            "scale_exp": 0 if dtype != "float64" else draw(st.sampled_from([0, 0, -30, 20])),
+            "layout": draw(st.sampled_from(["C", "C", "F", "view"])),
+            "container": draw(st.sampled_from(["list", "ndarray", "tuple"])),
+            "scheme": draw(st.sampled_from(["bottleneck", "bottleneck", "bottleneck", "subtract"])),
+            "style": draw(st.sampled_from(["keyword", "positional"])),
+            "num_paths": draw(st.sampled_from([None, None, 2, 3, 5])), "cutoff": draw(st.sampled_from([1.0, 1.0, 0.9, None]))}
+
+
 # --------------------------------------------------------------------------
 # clause bodies
 
@@ -725,6 +764,11 @@ CLAUSES = [
     Clause("paths_widest_ties", graph_case(kinds=("conserved", "perturbed"), schemes=("bottleneck", "bottleneck", "subtract"),
                                            wkinds=("int_small", "int_small", "int")), run_paths_widest, quick=5000, thorough=40000,
            doc="tie-heavy integer flows: successive paths are the widest of the (tie-tolerant) residual of their turn"),
+    Clause("paths_widest_tied_bottleneck", tied_bottleneck_case(), run_paths_widest, quick=600, thorough=10000,
+           doc="constructed: every edge of the widest pathway ties for its bottleneck and two medium routes each share one "
+               "of those edges - whichever ONE edge is removed, a medium route is the next widest path"),
+    Clause("stopping_tied_bottleneck", tied_bottleneck_case(), run_stopping, quick=300, thorough=5000,
+           doc="same constructed graphs: no early stop while a pathway is left"),
     Clause("reaches_fraction_ties", graph_case(kinds=("conserved",), wkinds=("int_small", "int")), run_reaches_fraction,
            quick=4000, thorough=30000, doc="requested fraction reached on tie-heavy conserved integer flows"),
     Clause("monotone", graph_case(), run_monotone, quick=600, thorough=16000,
